@@ -1,4 +1,5 @@
 import XrsVerif.Proofs.HaloNV
+import XrsVerif.Core.HaloIter
 import XrsVerif.Model.Index
 import XrsVerif.Gen.Overlap
 import XrsVerif.Gen.Blocks
@@ -143,6 +144,17 @@ theorem convolve_dask_eq_spec {α β : Type} (fill : α) (dflt : β) (kr kc : Na
     (hk.mono (convolve_depth_covers_radius kr kc).1 (convolve_depth_covers_radius kr kc).2) hf
     (convolve_depth_covers_radius kr kc).1 (convolve_depth_covers_radius kr kc).2
     rch cch g hrs hcs i j hi hi' hj hj'
+
+/-- focal `mean` with `passes`: every pass is a fresh `map_overlap` with the generated depth; for
+    any 3x3 cell function (radius 1, no loop margin, as `_mean_numpy`) the chunked iteration equals
+    the iterated whole-raster specification after **any number of passes**, for every chunking -/
+theorem mean_passes {α : Type} (fill dflt : α) (k : (Int → Int → α) → α) (f : Grid α → Grid α)
+    (hk : WindowLocal 1 1 k) (hf : IsStencil 0 0 k f)
+    (rch cch : List Nat) (g : Grid α) (hrs : rch.sum = g.h) (hcs : cch.sum = g.w) (passes : Nat) :
+    (passesChunked fill dflt (mean_overlap.depth 3 3).1 (mean_overlap.depth 3 3).2 f rch cch passes g).EqOn
+      (passesSpec fill k passes g) :=
+  passes_eq_spec fill dflt _ _ 0 0 k f (hk.mono (by decide) (by decide)) hf (Nat.zero_le _) (Nat.zero_le _)
+    rch cch g hrs hcs passes
 
 /-! ## 4. per-cell operations mapped over blocks: spectral indices, binary, hotspots classes,
        true_color bands -- `map_blocks` over any chunking is the kernel on the whole raster -/
